@@ -167,7 +167,11 @@ def negArr : Val R → Val R
 def addV (x y : Val R) : Except String (Val R) :=
   match x, y with
   | .arr dx r c a, .arr dy r' c' b =>
-      if r == r' && c == c' then .ok (.arr (DType.promote dx dy) r c (addM a b)) else .error "error:ValueError"
+      -- two plain arrays are added by NumPy alone: equal shapes entrywise; shapes that NumPy would BROADCAST
+      -- (an extent 1 against any extent) are outside the model (`unsupported`); anything else raises ValueError
+      if r == r' && c == c' then .ok (.arr (DType.promote dx dy) r c (addM a b))
+      else if (r == r' || r == 1 || r' == 1) && (c == c' || c == 1 || c' == 1) then .error "unsupported"
+      else .error "error:ValueError"
   | .op A, y => addRule A (lazifyV y)            -- A.__add__(y) -> add(A, y)
   | .arr dx r c a, .op B => addRule B (.dense dx r c a)   -- B.__radd__(x) -> B.__add__(x)
 
